@@ -79,6 +79,23 @@ def faults(quick: bool):
     out.append(("manifest:unknown-key", ("manifest_append", "bogus: 1\n")))
     out.append(("manifest:bad-namespace", ("manifest_ns", "lowercase")))
     out.append(("manifest:import-cycle", ("files", {"lib/_package.yml": "namespace: Lib\nimports:\n  - ../main\n"})))
+    # faults that exist in the import graph only (every model file is fine); without previous versions, so that nothing but the import loader can object
+    nov = "namespace: Main\nimports:\n  - ../lib\n"
+    out.append(("graph:cycle-through-root", ("tree", {"lib/_package.yml": "namespace: Lib\nimports:\n  - ../main\n"}, nov)))
+    out.append(("graph:cycle-among-imports", ("tree", {"lib/_package.yml": "namespace: Lib\nimports:\n  - ../lib2\n", "lib2/_package.yml": "namespace: Lib2\nimports:\n  - ../lib\n", "lib2/x.yml": "X: int\n"}, nov)))
+    out.append(("graph:cycle-of-three-below-root", ("tree", {"lib/_package.yml": "namespace: Lib\nimports:\n  - ../lib2\n", "lib2/_package.yml": "namespace: Lib2\nimports:\n  - ../lib3\n", "lib2/x.yml": "X: int\n",
+                                                            "lib3/_package.yml": "namespace: Lib3\nimports:\n  - ../lib\n", "lib3/x.yml": "Y: int\n"}, nov)))
+    out.append(("graph:self-import", ("tree", {}, "namespace: Main\nimports:\n  - ../lib\n  - ../main\n")))
+    out.append(("graph:import-imports-itself", ("tree", {"lib/_package.yml": "namespace: Lib\nimports:\n  - ../lib\n"}, nov)))
+    out.append(("graph:cycle-closed-through-another-spelling", ("tree", {"lib/_package.yml": "namespace: Lib\nimports:\n  - ../lib2\n", "lib2/_package.yml": "namespace: Lib2\nimports:\n  - ../lib2/../lib\n", "lib2/x.yml": "X: int\n"}, nov)))
+    out.append(("graph:namespace-conflict-below-import", ("tree", {"lib/_package.yml": "namespace: Lib\nimports:\n  - ../lib2\n", "lib2/_package.yml": "namespace: Main\n", "lib2/x.yml": "X: int\n"}, nov)))
+    out.append(("graph:import-of-import-missing", ("tree", {"lib/_package.yml": "namespace: Lib\nimports:\n  - ../nowhere\n"}, nov)))
+    out.append(("graph:import-of-import-bad-manifest", ("tree", {"lib/_package.yml": "namespace: Lib\nimports:\n  - ../lib2\n", "lib2/_package.yml": "namespace: Lib2\nbogus: 1\n", "lib2/x.yml": "X: int\n"}, nov)))
+    chain = {"lib/_package.yml": "namespace: Lib\nimports:\n  - ../c1\n"}
+    for k in range(1, 12):
+        chain["c%d/_package.yml" % k] = "namespace: C%d\n" % k + ("imports:\n  - ../c%d\n" % (k + 1) if k < 11 else "")
+        chain["c%d/x.yml" % k] = "X%d: int\n" % k
+    out.append(("graph:import-chain-too-deep", ("tree", chain, nov)))
     out.append(("manifest:import-missing", ("files_manifest_imports", "imports:\n  - ../lib\n  - ../missing\n")))
     out.append(("manifest:namespace-conflict", ("files", {"lib2/_package.yml": "namespace: Lib\n", "lib2/x.yml": "X: int\n"}, "imports:\n  - ../lib\n  - ../lib2\n")))
     out.append(("yaml:garbage-model", ("files", {"main/zz.yml": "]]]: [\n"})))
@@ -150,6 +167,10 @@ def apply_fault(base, outcfg, fault):
             key = "versions:\n  v0: ../v0\n" if fault[2].startswith("versions:") else "imports:\n  - ../lib\n"
             s = open(man_path).read().replace(key, fault[2])
             open(man_path, "w").write(s)
+    elif kind == "tree":
+        for rel, text in fault[1].items():
+            common.write_file(os.path.join(W, rel), text)
+        open(man_path, "w").write(fault[2] + OUT_CONFIGS[outcfg])
     elif kind == "manifest":
         s = open(man_path).read().replace("versions:\n  v0: ../v0\n", fault[1])
         open(man_path, "w").write(s)
